@@ -8,6 +8,33 @@ from enc import call, tres
 from props import corpus, mutators, progen
 
 
+def leftovers(d, path="data"):
+    """private serialisation fields that a normal form must not carry"""
+    import code_data as cd
+    out = []
+    if d._additional_args:
+        out.append("%s._additional_args" % path)
+    if d._additional_line is not None:
+        out.append("%s._additional_line" % path)
+    if d._nested:
+        out.append("%s._nested" % path)
+    for bi, b in enumerate(d.blocks):
+        for ii, i in enumerate(b):
+            where = "%s.blocks[%d][%d]" % (path, bi, ii)
+            if i._n_args_override is not None:
+                out.append(where + "._n_args_override")
+            if i._line_offsets_override:
+                out.append(where + "._line_offsets_override")
+            a = i.arg
+            if getattr(a, "_index_override", None) is not None:
+                out.append(where + ".arg._index_override (%s)" % type(a).__name__)
+            if isinstance(a, cd.NoArg) and a._arg != 0:
+                out.append(where + ".arg._arg")
+            if isinstance(a, cd.Constant) and isinstance(a.constant, cd.CodeData):
+                out += leftovers(a.constant, where + ".arg.constant")
+    return out
+
+
 def work(ctx):
     from code_data import CodeData
     rng = ctx.rng
@@ -33,6 +60,16 @@ def work(ctx):
         ctx.evaluated((what, "idempotent"))
         if n0.normalize() != n0:
             ctx.violation("not-idempotent", "%s: normalize(normalize(x)) != normalize(x)" % what, data)
+        # a normal form carries no serialisation artefact at all, at any nesting depth
+        left = leftovers(n0)
+        if left:
+            ctx.violation("artefact-survives", "%s: the normal form still carries %s" % (what, left[0]), data)
+        if ncases < (150 if ctx.quick else 1500) and len(k.co_code) < 400 and sum(len(x.co_code) for x in corpus.walk(k)) < 600:
+            try:
+                # normalize itself: model against implementation (the property is about this function)
+                ctx.case("ser_cd (normalize %s)" % E.g_cd(d), E.t_cd(n0), "normalize %s" % what, "normalize")
+            except E.Unsupported:
+                pass
         # ---- histories over {code round trip, JSON round trip, normalize}
         for _ in range(1 if ctx.quick else 6):
             hist = [rng.choice(["code", "json", "normalize"]) for _ in range(rng.randint(1, 8 if ctx.quick else 20))]
@@ -63,6 +100,9 @@ def work(ctx):
             v = call(mutators.pad_table, k, which, rng)
             if v[0] == "ok" and v[1] is not None:
                 variants.append(("padded " + which, v[1]))
+        v = call(mutators.permute_cellvars, k, rng)
+        if v[0] == "ok" and v[1] is not None:
+            variants.append(("permuted co_cellvars", v[1]))
         v = call(mutators.toggle_nested, k)
         if v[0] == "ok":
             variants.append(("CO_NESTED toggled", v[1]))
